@@ -461,7 +461,7 @@ def replay(modname, path, out=sys.stdout):
     d = json.load(open(path))
     env.lc()
     tier = "quick"
-    part = [p for p in mod.parts(tier) if p.name == d["part"]]
+    part = [p for p in mod.parts("quick") if p.name == d["part"]] or [p for p in mod.parts("thorough") if p.name == d["part"]]
     if not part:
         raise env.HarnessError("replay file names unknown part %r" % d["part"])
     part = part[0]
